@@ -222,6 +222,34 @@ def r_file_allow_lookup(r, prog):
     r.floor(1)
 
 
+
+def r_allow_accepted_where_lints_are_scoped(r, prog):
+    """`allow` must be accepted on every kind of element in whose scope a lint can be reported (every Entity, and files): rejecting it
+    there turns the suppression of a lint into an error."""
+    from helpers import variants_reaching
+    f = prog.fn('slicec::grammar::attributes::allow::Allow::validate_on')
+    rep = [c for c in f.calls() if c.name() == 'report_invalid_attribute' and not f.blocks[c.bb].get('cleanup')]
+    A = prog.adts['slicec::grammar::wrappers::Attributables']['variants']
+    E = {v['n'] for v in prog.adts['slicec::grammar::wrappers::Entities']['variants']}
+    if not rep:
+        r.ok('allow is accepted everywhere')
+        r.floor(1)
+        return
+    rejected = set()
+    for c in rep:
+        sw, ks = variants_reaching(f, 'Attributables', c.bb)
+        for k in ks:
+            if k == 'otherwise':
+                rejected |= {A[i]['n'] for i in range(len(A)) if i not in sw['arms']}
+            else:
+                rejected.add(A[k]['n'])
+    bad = sorted(rejected & (E | {'SliceFile'}))
+    if bad:
+        r.finding('allow-rejected-on-scoped-element:%s' % ','.join(bad), f.span, 'the allow attribute is rejected on %s, elements in whose scope lints are reported: silencing such a lint there now produces an error' % ', '.join(bad))
+    else:
+        r.ok('allow is rejected only on %s, which never own the scope of a lint' % ', '.join(sorted(rejected)))
+    r.floor(1)
+
 def run(ctx):
     prog = ctx.prog
     ctx.run_rule('C13.1a', 'T1', 'Diagnostic.level written only by new and, with Allowed, inside the Lint arm of into_updated', levels.r_level_writers, prog)
@@ -231,3 +259,4 @@ def run(ctx):
     ctx.run_rule('C13.4', 'T1', 'suppressions are consulted only by into_updated, which only rewrites levels', r_non_interference, prog)
     ctx.run_rule('C13.6', 'T10', 'file-level allow is looked up by the full path of the lint\'s span', r_file_allow_lookup, prog)
     ctx.run_rule('C13.5', 'T5', 'contained elements inherit their parent\'s attributes', r_contained_inherit_attributes, prog)
+    ctx.run_rule('C13.7', 'T6', 'allow is accepted on every element kind that can own the scope of a lint', r_allow_accepted_where_lints_are_scoped, prog)
